@@ -28,10 +28,12 @@ RegFiles == {R(<<"a.c">>), R(<<"b.h">>), R(<<"notes.txt">>), R(<<"noext">>), R(<
              R(<<"t.cu">>), R(<<"m.cpp.txt">>), R(<<"v.S">>), R(<<"n.f9">>),
              <<"B", "root2", "x.c">>, <<"B", "outside", "o.c">>}
 Dirs == {Root, R(<<"d1">>), R(<<"d1", "d2">>), R(<<"build">>), R(<<"a">>), R(<<"src.c">>), <<"B", "root2">>, <<"B", "outside">>}
-Links == [p \in {R(<<"lnk_d1">>), R(<<"la.c">>), R(<<"lout.c">>), R(<<"dangling.c">>), R(<<"lnk_out">>), R(<<"d1", "back">>)} |->
+Links == [p \in {R(<<"lnk_d1">>), R(<<"la.c">>), R(<<"lout.c">>), R(<<"dangling.c">>), R(<<"lnk_out">>), R(<<"d1", "back">>),
+                 R(<<"d1", "d2", "up">>)} |->
             CASE p = R(<<"lnk_d1">>) -> R(<<"d1">>) [] p = R(<<"la.c">>) -> R(<<"a.c">>)
               [] p = R(<<"lout.c">>) -> <<"B", "outside", "o.c">> [] p = R(<<"dangling.c">>) -> R(<<"nowhere.c">>)
-              [] p = R(<<"lnk_out">>) -> <<"B", "outside">> [] p = R(<<"d1", "back">>) -> Root]
+              [] p = R(<<"lnk_out">>) -> <<"B", "outside">> [] p = R(<<"d1", "back">>) -> Root
+              [] p = R(<<"d1", "d2", "up">>) -> R(<<"a">>)]      \* a link two levels down to a directory whose parent is the root
 \* the recognised source extensions (documentation: "Supported Languages"); the extension is what follows the
 \* LAST dot of the name, and a name that only starts with a dot has none
 Exts == {".f90", ".F90", ".f", ".ftn", ".fpp", ".F", ".FOR", ".FTN", ".FPP", ".c", ".h", ".c++", ".cxx", ".cpp", ".cc",
@@ -105,7 +107,12 @@ Members == {p \in RegFiles : Member(p)}
 Spell(p) == {p} \cup (IF Prefix(R(<<"d1">>), p) THEN {R(<<"lnk_d1">>) \o Drop(p, Len(Root) + 1),
                                                      R(<<"d1", "..", "d1">>) \o Drop(p, Len(Root) + 1),
                                                      R(<<"d1", "back", "d1">>) \o Drop(p, Len(Root) + 1)} ELSE {})
-                \cup (IF p = R(<<"a.c">>) THEN {R(<<"la.c">>), R(<<".", "a.c">>), R(<<"d1", "..", "a.c">>), R(<<"d1", "back", "a.c">>)} ELSE {})
+                \cup (IF p = R(<<"a.c">>) THEN {R(<<"la.c">>), R(<<".", "a.c">>), R(<<"d1", "..", "a.c">>), R(<<"d1", "back", "a.c">>),
+                                                 \* ".." AFTER a directory link leads to the physical parent of the link's target
+                                                 \* (d1/back -> root, so d1/back/.. is the directory that holds root)
+                                                 R(<<"d1", "back", "..", "root", "a.c">>), R(<<"lnk_d1", "..", "a.c">>)} ELSE {})
+                \* the lexical collapse of this spelling (root/d1/d2/a.c) exists and is a different file
+                \cup (IF p = R(<<"a.c">>) THEN {R(<<"d1", "d2", "up", "..", "a.c">>)} ELSE {})
                 \cup (IF p = <<"B", "outside", "o.c">> THEN {R(<<"lout.c">>), R(<<"lnk_out", "o.c">>)} ELSE {})
 
 \* M: membership does not depend on the spelling; links to outside and dangling links are never members
